@@ -85,8 +85,9 @@ def pairs(tier):
             srcR = Src("R", m, RCOLS, m, how="delayed", cuts=tuple(range(m + 1)))
             for how in ("inner", "left", "right", "outer"):
                 base = f"L.merge(R, on='a', how={how!r})"
-                for kw in ["broadcast=True", "broadcast=False", "broadcast=0.3", "broadcast=0.9", "npartitions=2", f"npartitions={n + 1}", "shuffle_method='tasks'"]:
-                    if tier == "quick" and how in ("right", "outer") and kw not in ("broadcast=True", "broadcast=False", "npartitions=2"):
+                for kw in ["broadcast=True", "broadcast=False", "broadcast=0.3", "broadcast=0.9", "npartitions=2", f"npartitions={n + 1}", "shuffle_method='tasks'",
+                           "broadcast=True, npartitions=2", f"broadcast=True, npartitions={n + 1}", "broadcast=False, npartitions=2"]:
+                    if tier == "quick" and how in ("right", "outer") and kw not in ("broadcast=True", "broadcast=False", "npartitions=2", "broadcast=True, npartitions=2"):
                         continue
                     out.append((P(base, [srcL, srcR]), f"L.merge(R, on='a', how={how!r}, {kw})", "merge-knobs"))
     return out
